@@ -9,13 +9,18 @@ import (
 	"hash/fnv"
 	"os"
 	"reflect"
+	"regexp"
+	"strconv"
 	"strings"
 	"sync"
 
 	"github.com/ohler55/ojg"
 	"github.com/ohler55/ojg/alt"
 	"github.com/ohler55/ojg/oj"
+	"github.com/ohler55/ojg/sen"
 
+	"verif/harness/cmd/reflect/pa"
+	"verif/harness/cmd/reflect/pb"
 	"verif/harness/lib"
 )
 
@@ -27,12 +32,27 @@ type histEvent struct {
 }
 
 type c16Case struct {
-	hist       []histEvent
-	d          *TDesc
-	v          reflect.Value
-	spec       optSpec // options of alt.Decompose (route "decompose")
-	route      string  // "decompose": alt.Recompose(alt.Decompose(v)); "marshal": oj.Unmarshal(oj.Marshal(v))
-	useDefault bool    // through alt.DefaultRecomposer (alt.Recompose / oj.Unmarshal without argument)
+	hist []histEvent
+	d    *TDesc
+	v    reflect.Value
+	spec optSpec // options of alt.Decompose (route "decompose")
+	// route: "decompose": alt.Recompose(alt.Decompose(v, &o)); "marshal": oj.Marshal(v) under the default
+	// options, parsed and recomposed; "oj": oj.Unmarshal(oj.Marshal(v, &o)); "sen": sen.Unmarshal of
+	// the text a sen.Writer with the options writes
+	route      string
+	useDefault bool   // through alt.DefaultRecomposer (alt.Recompose / oj.Unmarshal without argument)
+	byPtr      bool   // the encoder is handed &v (addressable: the unsafe offset path) instead of v
+	text       []byte // routes oj and sen: what the writer wrote (set by tree)
+}
+
+// arg is what the encoder is handed.
+func (c *c16Case) arg() any {
+	if c.byPtr {
+		p := reflect.New(c.d.RT)
+		p.Elem().Set(c.v)
+		return p.Interface()
+	}
+	return c.v.Interface()
 }
 
 var defaultMu sync.Mutex
@@ -207,6 +227,12 @@ func (c *c16Case) recomposer(withHist bool) *alt.Recomposer {
 // tagsUsed: the writer of this route honours json tags (oj.Marshal runs under ojg.GoOptions).
 func (c *c16Case) tagsUsed() bool { return c.route == "marshal" || c.spec.UseTags }
 
+// senBytes writes v with a sen.Writer of its own (a panic of the writer is the caller's to recover).
+func senBytes(v any, o *ojg.Options) []byte {
+	wr := sen.Writer{Options: *o}
+	return append([]byte{}, wr.MustSEN(v)...)
+}
+
 // tree is what the recomposer is given: the decomposition or the parsed Marshal output.
 func (c *c16Case) tree() (any, string) {
 	var t any
@@ -216,16 +242,30 @@ func (c *c16Case) tree() (any, string) {
 				err = fmt.Errorf("%v", r)
 			}
 		}()
-		if c.route == "marshal" {
-			b, err := oj.Marshal(c.v.Interface())
+		o := c.spec.options()
+		switch c.route {
+		case "marshal":
+			b, err := oj.Marshal(c.arg())
 			if err != nil {
 				return err
 			}
 			t, err = (&oj.Parser{}).Parse(b)
 			return err
+		case "oj":
+			b, err := oj.Marshal(c.arg(), &o)
+			if err != nil {
+				return err
+			}
+			c.text = append([]byte{}, b...)
+			t, err = (&oj.Parser{}).Parse(c.text)
+			return err
+		case "sen":
+			c.text = senBytes(c.arg(), &o)
+			var err error
+			t, err = (&sen.Parser{}).Parse(c.text)
+			return err
 		}
-		o := c.spec.options()
-		t = alt.Decompose(c.v.Interface(), &o)
+		t = alt.Decompose(c.arg(), &o)
 		return nil
 	}()
 	if err != nil {
@@ -252,15 +292,33 @@ func (c *c16Case) run(t any, withHist bool) (exact, norm string) {
 			saved := alt.DefaultRecomposer
 			alt.DefaultRecomposer = *r
 			defer func() { alt.DefaultRecomposer = saved }()
-			_, err = alt.Recompose(t, tgt.Interface())
+			switch c.route {
+			case "oj":
+				err = oj.Unmarshal(c.text, tgt.Interface())
+			case "sen":
+				err = sen.Unmarshal(c.text, tgt.Interface())
+			default:
+				_, err = alt.Recompose(t, tgt.Interface())
+			}
 		} else {
-			_, err = r.Recompose(t, tgt.Interface())
+			switch c.route {
+			case "oj":
+				err = oj.Unmarshal(c.text, tgt.Interface(), r)
+			case "sen":
+				err = sen.Unmarshal(c.text, tgt.Interface(), r)
+			default:
+				_, err = r.Recompose(t, tgt.Interface())
+			}
 		}
 	}()
 	if err != nil {
 		return "error", "error"
 	}
-	return valueString(c.d, tgt.Elem()), normValue(c.d, tgt.Elem(), c.tagsUsed())
+	exact, norm = valueString(c.d, tgt.Elem()), normValue(c.d, tgt.Elem(), c.tagsUsed())
+	if c.route == "oj" {
+		exact, norm = ifaceFloats(exact), ifaceFloats(norm)
+	}
+	return exact, norm
 }
 
 // ---- predicates that name the known deviations -------------------------------------------------
@@ -423,7 +481,7 @@ func (c *c16Case) knownReasons() []string {
 		// create-key NAMES in the data are resolved by bare name (by design unless FullTypePath)
 		out = append(out, "C16-createkey-bare-name")
 	}
-	if f.bytes && (c.route == "marshal" || c.spec.BytesAs != ojg.BytesAsArray) {
+	if f.bytes && (c.route != "decompose" || c.spec.BytesAs != ojg.BytesAsArray) {
 		// (the Marshal route writes numbers as long as C15-bytes-as-slice stands, and then round-trips)
 		out = append(out, "C16-bytes-text")
 	}
@@ -467,6 +525,19 @@ func (c *c16Case) embPtrInUniverse() bool {
 	return false
 }
 
+// ifaceIntRe: an int64 held by an interface, in token form.
+var ifaceIntRe = regexp.MustCompile(`j i4 i (-?[0-9]+)`)
+
+// ifaceFloats rewrites every int64 held by an interface as the float64 of the same value: oj.Unmarshal
+// parses with ForceFloat (every JSON number becomes a float64, as in encoding/json), so on the oj
+// route an integer in an interface slot comes back as a float64 by design.
+func ifaceFloats(s string) string {
+	return ifaceIntRe.ReplaceAllStringFunc(s, func(m string) string {
+		n, _ := strconv.ParseInt(m[len("j i4 i "):], 10, 64)
+		return "j f64 d " + lib.HexF([]byte(strconv.FormatFloat(float64(n), 'g', -1, 64)))
+	})
+}
+
 func normTokens(s string) string {
 	s = " " + s + " "
 	for i := 0; i < 2; i++ {
@@ -487,7 +558,7 @@ func (c *c16Case) replay() map[string]any {
 		hs = append(hs, e)
 	}
 	return map[string]any{"type": c.d.String(), "value": valueString(c.d, c.v), "options": c.spec.word(false, false),
-		"route": c.route, "default_recomposer": c.useDefault, "history": hs, "go_type": c.d.RT.String(),
+		"route": c.route, "default_recomposer": c.useDefault, "by_pointer": c.byPtr, "history": hs, "go_type": c.d.RT.String(),
 		"go_value": fmt.Sprintf("%+v", c.v.Interface())}
 }
 
@@ -542,6 +613,9 @@ func checkC16(d *lib.Driver, c *c16Case) error {
 	rep.Count("route."+c.route, 1)
 	rep.Count(fmt.Sprintf("history.len=%d", len(c.hist)), 1)
 	want := normValue(c.d, c.v, c.tagsUsed())
+	if c.route == "oj" {
+		want = ifaceFloats(want)
+	}
 	if terr != "" {
 		// the encoder failed: C15's business (nil embedded pointer, tight nil pointer); nothing to recompose
 		rep.Count("encode_failed", 1)
@@ -582,6 +656,13 @@ func checkC16(d *lib.Driver, c *c16Case) error {
 			return err
 		}
 		copy(model[:], ans)
+		if c.route == "oj" {
+			// the model is handed the tree of a plain oj.Parser (integers stay int64); oj.Unmarshal
+			// forces floats, which shows in interface slots only (values are within ±2^53)
+			for i := range model {
+				model[i] = ifaceFloats(model[i])
+			}
+		}
 	}
 	// I. inverse, without history (the Marshal route writes no create key: a struct held by an interface
 	// cannot come back, the property asks for a create key there)
@@ -674,7 +755,7 @@ func checkC16(d *lib.Driver, c *c16Case) error {
 // histPool: the types a history is drawn from.
 func histPool(r *lib.Rng, n int) []*TDesc {
 	var out []*TDesc
-	for _, t := range namedTypes {
+	for _, t := range allNamed16 {
 		out = append(out, mustDescribe(t))
 	}
 	for i := 0; i < n; i++ {
@@ -692,12 +773,9 @@ func genC16(r *lib.Rng, n int, emit func(*c16Case)) {
 		clean := r.Intn(3) != 0 // a case the round trip is expected to work on
 		switch k := r.Intn(10); {
 		case k < 4:
-			rt = lib.Pick(r, namedTypes)
+			rt = lib.Pick(r, allNamed16)
 		default:
 			g := newTypeGen(r.Fork(i), genOpts{noEmbedPtr: clean, maxFields: 5})
-			if clean {
-				depth = 0 // no nested unnamed struct: they would share the name ""
-			}
 			rt = g.structT(depth)
 		}
 		d, ok := describe(rt)
@@ -723,8 +801,149 @@ func genC16(r *lib.Rng, n int, emit func(*c16Case)) {
 			}
 			hist = append(hist, ev)
 		}
-		for _, route := range []string{"decompose", "marshal"} {
-			emit(&c16Case{hist: hist, d: d, v: v, spec: spec, route: route, useDefault: r.Intn(4) == 0})
+		for _, route := range c16Routes {
+			emit(&c16Case{hist: hist, d: d, v: v, spec: spec, route: route, useDefault: r.Intn(4) == 0, byPtr: r.Bool()})
+		}
+	}
+}
+
+var c16Routes = []string{"decompose", "marshal", "oj", "sen"}
+
+// the three key-naming plans (tags / exact / lower case) and one with tags but without KeyExact
+var c16Plans = []optSpec{
+	{CreateKey: "^", BytesAs: ojg.BytesAsArray},
+	{KeyExact: true, CreateKey: "^", BytesAs: ojg.BytesAsArray},
+	{UseTags: true, KeyExact: true, CreateKey: "^", BytesAs: ojg.BytesAsArray},
+	{UseTags: true, CreateKey: "type", FullTypePath: true, BytesAs: ojg.BytesAsArray},
+}
+
+// widthValues: values of a type made of numeric fields (pa.Widths, pa.WideIn): in value j every
+// integer field holds the j-th of the bounds of c16Bounds (and 0, 1, -1) that its width admits, the
+// float64 fields a value a float32 cannot hold, the float32 fields one it can.
+func widthValues(rt reflect.Type) []reflect.Value {
+	bounds := append([]int64{0, 1, -1}, c16Bounds...)
+	f32 := []float64{0, 0.5, -2.25, 16777216, -16777216, 65536.5, 1e6, 8388607.5}
+	var out []reflect.Value
+	for j := 0; j < len(bounds); j++ {
+		v := reflect.New(rt).Elem()
+		var set func(v reflect.Value)
+		set = func(v reflect.Value) {
+			switch v.Kind() {
+			case reflect.Struct:
+				for i := 0; i < v.NumField(); i++ {
+					set(v.Field(i))
+				}
+			case reflect.Int, reflect.Int8, reflect.Int16, reflect.Int32, reflect.Int64:
+				var ok []int64
+				for _, b := range bounds {
+					if !v.OverflowInt(b) {
+						ok = append(ok, b)
+					}
+				}
+				v.SetInt(ok[j%len(ok)])
+			case reflect.Uint, reflect.Uint8, reflect.Uint16, reflect.Uint32, reflect.Uint64:
+				var ok []uint64
+				for _, b := range bounds {
+					if b >= 0 && !v.OverflowUint(uint64(b)) {
+						ok = append(ok, uint64(b))
+					}
+				}
+				v.SetUint(ok[j%len(ok)])
+			case reflect.Float32:
+				f := f32[j%len(f32)]
+				if !float32Safe(f) {
+					f = 0.5
+				}
+				v.SetFloat(f)
+			case reflect.Float64:
+				v.SetFloat(float64Pool16[j%len(float64Pool16)])
+			case reflect.Bool:
+				v.SetBool(j%2 == 0)
+			case reflect.String:
+				v.SetString(stringPool[j%len(stringPool)])
+			}
+		}
+		set(v)
+		out = append(out, v)
+	}
+	return out
+}
+
+// boundaryValues16: (a) every numeric width at and just beyond the range of each narrower width;
+// (b) embedded structs and pointers in non-first position; (c) same-named types with different field
+// sets in turn on one recomposer — each through all routes, by value and by pointer, under every
+// key-naming plan, on a recomposer of its own and on the default one.
+func boundaryValues16(emit func(*c16Case)) {
+	ty := func(v any) reflect.Type { return reflect.TypeOf(v) }
+	all := func(d *TDesc, v reflect.Value, hist []histEvent, defaults []bool) {
+		for _, s := range c16Plans {
+			for _, route := range c16Routes {
+				for _, bp := range []bool{false, true} {
+					for _, ud := range defaults {
+						emit(&c16Case{hist: hist, d: d, v: v, spec: s, route: route, byPtr: bp, useDefault: ud})
+					}
+				}
+			}
+		}
+	}
+	// (a)
+	unnamedWidths := reflect.StructOf([]reflect.StructField{
+		{Name: "Head", Type: stringType},
+		{Name: "Part", Type: ty(pa.Widths{}), Tag: `json:"part"`},
+		{Name: "List", Type: reflect.SliceOf(ty(uint32(0)))},
+		{Name: "Tail", Type: ty(uint16(0)), Tag: `json:"t_1,omitempty"`},
+	})
+	for _, rt := range []reflect.Type{ty(pa.Widths{}), ty(pa.WideIn{}), unnamedWidths} {
+		d := mustDescribe(rt)
+		for j, v := range widthValues(rt) {
+			if rt == unnamedWidths {
+				v.Field(2).Set(reflect.ValueOf([]uint32{65535, 65536, 1<<32 - 1, uint32(j)}))
+			}
+			all(d, v, nil, []bool{false})
+		}
+	}
+	// (b)
+	inner := reflect.StructOf([]reflect.StructField{
+		{Name: "Left", Type: ty(int32(0))},
+		{Name: "Right", Type: stringType, Tag: `json:"t_2"`},
+		{Name: "Up", Type: ty(uint64(0)), Tag: `json:"t_3,omitempty"`},
+	})
+	mid := func(ptr bool) reflect.Type {
+		et := inner
+		if ptr {
+			et = reflect.PtrTo(inner)
+		}
+		return reflect.StructOf([]reflect.StructField{
+			{Name: "Id", Type: ty(int64(0)), Tag: `json:"t_1"`},
+			{Name: "Mode", Type: boolType},
+			{Name: "Emb1", Type: et, Anonymous: true},
+			{Name: "Name", Type: stringType},
+			{Name: "Emb2", Type: ty(pa.Leaf{}), Anonymous: true},
+			{Name: "Zed", Type: ty(uint8(0)), Tag: `json:",omitempty"`},
+		})
+	}
+	for ti, rt := range []reflect.Type{ty(pa.EmbMid{}), ty(pa.EmbTag{}), ty(pa.WideIn{}), ty(pa.Emb{}), mid(false), mid(true)} {
+		d := mustDescribe(rt)
+		for k := 0; k < 6; k++ {
+			vg := &valGen{r: lib.NewRng(uint64(7000 + 10*ti + k)), c16: true, noNil: k%3 != 2}
+			all(d, vg.newValue(rt, 3), nil, []bool{false})
+		}
+	}
+	// (c)
+	same := append(pa.Samples(), pb.Sample(), ty(pa.T{}), ty(pb.T{}))
+	for ti, rt := range same {
+		for hi, ht := range same {
+			if ht == rt {
+				continue
+			}
+			d, hd := mustDescribe(rt), mustDescribe(ht)
+			vg := &valGen{r: lib.NewRng(uint64(8000 + 10*ti + hi)), c16: true, noNil: true}
+			v, hv := vg.newValue(rt, 3), vg.newValue(ht, 3)
+			all(d, v, []histEvent{{d: hd}}, []bool{false, true})
+			all(d, v, []histEvent{{d: hd, v: hv}}, []bool{false, true})
+			if third := same[(hi+1)%len(same)]; third != rt && third != ht {
+				all(d, v, []histEvent{{d: hd, v: hv}, {d: mustDescribe(third)}}, []bool{false})
+			}
 		}
 	}
 }
@@ -773,9 +992,9 @@ func runC16() error {
 		return replayC16()
 	}
 	full := *tier == "thorough"
-	perWorker := 2500
+	perWorker := 1500 // values; each goes through the four routes
 	if full {
-		perWorker = 15000
+		perWorker = 8000
 	}
 	if s := os.Getenv("VERIF_REFLECT_N"); s != "" {
 		fmt.Sscanf(s, "%d", &perWorker)
@@ -807,6 +1026,7 @@ func runC16() error {
 			}
 			if w == 0 {
 				boundaryC16(func(c *c16Case) { emit(c); rep.Count("stream.boundary", 1) })
+				boundaryValues16(func(c *c16Case) { emit(c); rep.Count("stream.boundary_values", 1) })
 			}
 			genC16(r, perWorker, func(c *c16Case) { emit(c); rep.Count("stream.random", 1) })
 		}(w)
@@ -817,7 +1037,7 @@ func runC16() error {
 		return err
 	default:
 	}
-	rep.Rule = "alt.Recompose(alt.Decompose(v)) and oj.Unmarshal(oj.Marshal(v)) give v back (nil ~ empty); the outcome after a history of other types on the same recomposer " +
+	rep.Rule = "alt.Recompose(alt.Decompose(v, o)), oj.Unmarshal(oj.Marshal(v)), oj.Unmarshal(oj.Marshal(v, o)) and sen.Unmarshal(sen text of v under o), with v handed by value and by pointer, give v back (nil ~ empty); the outcome after a history of other types on the same recomposer " +
 		"equals the outcome on a fresh one; the Lean registry/recompose model gives the implementation's outcome with and without the history"
 	return nil
 }
@@ -829,7 +1049,7 @@ func c16FromReplay(m map[string]any) (*c16Case, error) {
 	if err != nil {
 		return nil, err
 	}
-	c := &c16Case{d: base.d, v: base.v, spec: base.spec}
+	c := &c16Case{d: base.d, v: base.v, spec: base.spec, byPtr: base.byPtr}
 	c.route, _ = m["route"].(string)
 	if c.route == "" {
 		c.route = "decompose"
